@@ -8,7 +8,7 @@ use serde_json::{json, Value as J};
 
 pub static PROP: Prop = Prop {
     id: "C11",
-    rule: "cases: a well-formed program from the flat generator (all constructs; names are never operator words; strings contain blanks, tabs, newlines, operator and delimiter characters) is rendered three ways: canonical (one blank between tokens), `original` (each boundary empty where gluing is lexically safe, or a random string over {space, tab, CR, LF} of length 1-3) and `transformed` (every empty boundary gets a random whitespace string of length 0-3, every non-empty one is replaced by another non-empty string; leading/trailing whitespace added); additionally 1-2 complete subexpressions (token spans from the reference parser, any node kind except the statement list) are wrapped in 1-3 pairs of parentheses. Oracle (metamorphic): all accepted renderings parse to the same AST, string payloads byte-identical. Non-trivial: >= 5 tokens and the transformation touches >= 2 boundaries of different token-class pairs, or wraps a non-leaf node; distinct by (set of class pairs touched, wrapped node kinds).",
+    rule: "cases: a well-formed program from the flat generator (all constructs; names are never operator words; strings contain blanks, tabs, newlines, operator and delimiter characters) is rendered three ways: canonical (one blank between tokens), `original` (each boundary empty where gluing is lexically safe, or a random string over {space, tab, CR, LF} of length 1-3) and `transformed` (every empty boundary gets a random whitespace string of length 0-3, every non-empty one is replaced by another non-empty string; leading/trailing whitespace added); whitespace runs of 10^3, 2*10^4 and 2*10^5 (thorough 2*10^6) characters at one boundary are parsed in dev and release child processes; additionally 1-2 complete subexpressions (token spans from the reference parser, any node kind except the statement list) are wrapped in 1-3 pairs of parentheses. Oracle (metamorphic): all accepted renderings parse to the same AST, string payloads byte-identical. Non-trivial: >= 5 tokens and the transformation touches >= 2 boundaries of different token-class pairs, or wraps a non-leaf node; distinct by (set of class pairs touched, wrapped node kinds).",
     assumptions: &[
         "token boundaries come from the generator; a boundary is left empty only if the reference tokenizer splits the glued text into exactly the generated tokens",
         "programs whose canonical rendering the engine rejects, or parses differently from the reference parser (then subexpression spans are unknown), are excluded and counted; C02 reports those",
@@ -217,7 +217,72 @@ fn case(src: &mut Src, st: &mut Stats, _env: &Env) -> CaseResult {
     Ok(())
 }
 
+/// child: {"text": ...} -> the S-expression of the parsed program, or ERR
+pub fn worker() -> i32 {
+    use std::io::Read;
+    install_panic_hook();
+    let mut s = String::new();
+    std::io::stdin().read_to_string(&mut s).ok();
+    let doc: J = serde_json::from_str(&s).unwrap_or(json!({}));
+    match parse_sexp(doc["text"].as_str().unwrap_or("")) {
+        Ok(Ok(x)) => println!("{}", x),
+        Ok(Err(e)) => println!("ERR {}", e),
+        Err(p) => println!("PANIC {}", p),
+    }
+    0
+}
+
+/// very long whitespace runs at one or all token boundaries, in the dev and the release build
+fn long_runs(env: &Env, st: &mut Stats) -> CaseResult {
+    let tab = OpTable::builtin();
+    let programs = ["a + b", "f ( 1 , [ 2 ] )", "x = 'p q' ; x"];
+    let lens: Vec<usize> = vec![1000, 20_000, env.tier.pick(200_000, 2_000_000)];
+    let mut i = 0u64;
+    for p in programs {
+        let want = match parse_sexp(p) {
+            Ok(Ok(s)) => s,
+            _ => continue,
+        };
+        let (toks, _) = lex(p, &tab);
+        for n in &lens {
+            for profile in ["release", "debug"] {
+                i += 1;
+                if !env.mine(i) {
+                    continue;
+                }
+                st.eval();
+                st.hist(&format!("long-whitespace-run:{}", profile));
+                st.nontrivial(&format!("long:{}:{}:{}", p, n, profile));
+                let run: String = " \t\r\n".repeat(n / 4);
+                let seps: Vec<String> = (0..toks.len().saturating_sub(1)).map(|k| if k == 0 { run.clone() } else { " ".to_string() }).collect();
+                let text = render(&toks, &seps, &run, "");
+                let exe = format!("{}/out/target/{}/vh", VERIF, profile);
+                let out = run_child(std::path::Path::new(&exe), &["worker", "c11"], &json!({"text": text}).to_string(), std::time::Duration::from_secs(60));
+                st.add_extra("child_processes", 1);
+                let case = json!({"canonical": p, "kind": "ws", "whitespace_run_length": n, "profile": profile});
+                match out.end {
+                    ChildEnd::Exit(0) => {
+                        let got = out.stdout.trim();
+                        if got != want {
+                            return Err(Failure::new("ws:long-run:changes-tree", format!("{:?} with a run of {} whitespace characters ({} build) parsed to {} instead of {}", p, n, profile, got, want), case));
+                        }
+                    }
+                    other => {
+                        return Err(Failure::new(
+                            "ws:long-run:abort",
+                            format!("{:?} with a run of {} whitespace characters at a token boundary ({} build): the process ended with {:?}; stderr: {}", p, n, profile, other, out.stderr.lines().last().unwrap_or("")),
+                            case,
+                        ))
+                    }
+                }
+            }
+        }
+    }
+    Ok(())
+}
+
 fn fixed(env: &Env, st: &mut Stats) -> CaseResult {
+    long_runs(env, st)?;
     if env.shard != 0 {
         return Ok(());
     }
